@@ -296,7 +296,99 @@ def parse(x):
 '''
 
 
+_MUTATORS = {'append', 'extend', 'insert', 'add', 'update', 'setdefault', 'pop', 'popitem', 'remove', 'discard', 'clear', 'sort', 'reverse', 'appendleft'}
+CONTROL_DEFAULT = '''
+def collect(item, seen=[]):
+    seen.append(item)
+    return seen
+def helper(values, acc):
+    acc.extend(values)
+def outer(values, acc={}, log=[]):
+    helper(values, log)
+    return len(values)
+def fine(values, ignore=[]):
+    return [v for v in values if v not in ignore]
+'''
+
+
+def _mutable_default_findings(ctx, modules):
+    """(function node, construct, why) for every parameter whose default is a mutable object created once (a list / dict / set
+    display or constructor call) and that the function - or a function of the package it hands the parameter to, one level deep -
+    mutates in place: the object outlives the call, whatever is put into it stays for the life of the process."""
+    def is_mutable_default(d):
+        if isinstance(d, (ast.List, ast.Dict, ast.Set, ast.ListComp, ast.DictComp, ast.SetComp)):
+            return True
+        return isinstance(d, ast.Call) and isinstance(d.func, ast.Name) and d.func.id in ('list', 'dict', 'set', 'defaultdict', 'OrderedDict', 'deque', 'bytearray') \
+            or (isinstance(d, ast.Call) and isinstance(d.func, ast.Attribute) and d.func.attr in ('defaultdict', 'OrderedDict', 'deque', 'Counter'))
+
+    def mutations(fn, name):
+        out = []
+        rebound = False
+        for n in walk_local(fn):
+            if isinstance(n, ast.Call) and isinstance(n.func, ast.Attribute) and isinstance(n.func.value, ast.Name) and n.func.value.id == name \
+                    and n.func.attr in _MUTATORS:
+                out.append((n, f'{name}.{n.func.attr}(...)'))
+            elif isinstance(n, ast.AugAssign) and isinstance(n.target, ast.Name) and n.target.id == name:
+                out.append((n, f'{name} {type(n.op).__name__}= ...'))
+            elif isinstance(n, (ast.Assign, ast.AugAssign, ast.Delete)):
+                targets = n.targets if isinstance(n, (ast.Assign, ast.Delete)) else [n.target]
+                for t in targets:
+                    if isinstance(t, ast.Subscript) and isinstance(t.value, ast.Name) and t.value.id == name:
+                        out.append((n, f'{name}[...] is assigned / deleted'))
+        return out
+    for m in modules:
+        for qual, fn in m.funcs.items():
+            a = fn.args
+            pos = list(a.posonlyargs) + list(a.args)
+            pairs = list(zip(pos[len(pos) - len(a.defaults):], a.defaults)) + [(p, d) for p, d in zip(a.kwonlyargs, a.kw_defaults) if d is not None]
+            for prm, dflt in pairs:
+                if not is_mutable_default(dflt):
+                    continue
+                found = mutations(fn, prm.arg)
+                # handed on to a function of the package that mutates the corresponding parameter
+                for c in walk_local(fn):
+                    if not isinstance(c, ast.Call):
+                        continue
+                    tnode = None
+                    if isinstance(c.func, ast.Name) and c.func.id in m.funcs:
+                        tnode = m.funcs[c.func.id]
+                    elif isinstance(c.func, ast.Attribute) and isinstance(c.func.value, ast.Name) and c.func.value.id in ('self', 'cls'):
+                        tnode = m.funcs.get(f'{qual.rpartition(".")[0]}.{c.func.attr}')
+                    elif isinstance(c.func, (ast.Name, ast.Attribute)):
+                        try:
+                            ref = ctx.res.resolve(c.func, m)
+                        except KeyError:
+                            ref = None
+                        tnode = ctx.res.lookup(ref)[1] if ref and ref.startswith('pkg:') else None
+                    if not isinstance(tnode, ast.FunctionDef):
+                        continue
+                    tparams = [x.arg for x in list(tnode.args.posonlyargs) + list(tnode.args.args)]
+                    if tparams and tparams[0] in ('self', 'cls') and isinstance(c.func, ast.Attribute):
+                        tparams = tparams[1:]
+                    for i, arg in enumerate(c.args):
+                        if isinstance(arg, ast.Name) and arg.id == prm.arg and i < len(tparams) and mutations(tnode, tparams[i]):
+                            found.append((c, f'{prm.arg} is handed to {tnode.name}(), which changes its parameter {tparams[i]} in place'))
+                    for k in c.keywords:
+                        if isinstance(k.value, ast.Name) and k.value.id == prm.arg and k.arg in tparams and mutations(tnode, k.arg):
+                            found.append((c, f'{prm.arg} is handed to {tnode.name}({k.arg}=...), which changes it in place'))
+                for node, what in found[:1]:
+                    yield fn, f'default argument object of {qual}({prm.arg}=...) is changed in place', \
+                        (f'{qual} declares {prm.arg}={ast.unparse(dflt)} - one object created when the function is defined - and {what} (line {node.lineno}): '
+                         'what a call puts into it is still there in every later call that leaves the argument out, in every evaluator and model of the process')
+
+
 def rule_2(ctx):
+    ctl0 = Module('_control0', 'selftest/_control0.py', CONTROL_DEFAULT)
+    hits0 = sorted(c for _, c, _ in _mutable_default_findings(ctx, [ctl0]))
+    if len(hits0) != 2:
+        ctx.errors.append(f'C05.2: positive control (mutable default arguments changed in place) gives {hits0}')
+    nd = 0
+    for node, construct, why in _mutable_default_findings(ctx, ctx.repo.modules.values()):
+        nd += 1
+        ctx.bad(node, construct, why)
+    defaults = sum(1 for m in ctx.repo.modules.values() for fn in m.funcs.values() for d in list(fn.args.defaults) + [k for k in fn.args.kw_defaults if k is not None])
+    ctx.ok(ctx.mod('model').func('ModelCompiler.parse_archive'), f'{defaults} default argument values inspected, {nd} mutable ones changed in place',
+           'no default argument object is changed in place')
     # positive control: the detector must still see the pinned tree's defect shape
     ctl = Module('_control', 'selftest/_control.py', CONTROL)
     hits = list(_memo_findings(ctx, [ctl]))
